@@ -46,6 +46,11 @@ def generate(run_seed: int, tier: str, *, faults: bool) -> dict:
     container = core.weighted(rng, [("pandas", 7), ("recarray", 1.2), ("pandas_sub", 1.2), ("arrow", 1.5)])
     if container == "recarray":
         u["cols"].pop("N", None)  # a record array has no categorical dtype: numeric categories would simply be a numeric column
+        for c in u["cols"].values():
+            if c["kind"] in ("text_object", "text_default", "category"):
+                # an all-null object field of a record array is read back as float NaN, a mixed one keeps None: hashed() would
+                # stringify the same null differently in one-row and multi-row frames (hashed()/nulls is C06's hole): not generated
+                c["null_rate"] = 0.0
     f = world.gen_formula(rng, u, rich=rich, structured_p=swarm.choice([0.0, 0.25, 0.5]), max_terms=swarm.choice([2, 3, 5]),
                           force_ticked=True)
     n = u["n"]
@@ -159,6 +164,8 @@ def generate(run_seed: int, tier: str, *, faults: bool) -> dict:
                   "index": core.weighted(rng, [("rid", 3), ("range", 2), ("str", 1)])}
             if rng.random() < 0.2:
                 op["recat"] = rng.randrange(1000)
+            if rng.random() < 0.15:
+                op["int_as_float"] = True
             if kind == "fault":
                 fl = gen_fault()
                 if fl is None:
@@ -409,8 +416,8 @@ def execute(scenario: dict, env: Any, *, prop: str) -> dict:
     def seed_np(step: int) -> None:
         np.random.seed(core.h64("np", sc["np_seed"], step) % (2**32))
 
-    def frame(ids: list[int], index: str, fault: Optional[dict] = None, recat: Optional[int] = None, keep: Optional[list] = None) -> Any:
-        return world.take(u, ids, container=sc["container"], index=index, mutate=fault, recat=recat, keep_cols=keep)
+    def frame(ids: list[int], index: str, fault: Optional[dict] = None, recat: Optional[int] = None, keep: Optional[list] = None, iaf: bool = False) -> Any:
+        return world.take(u, ids, container=sc["container"], index=index, mutate=fault, recat=recat, keep_cols=keep, int_as_float=iaf)
 
     def call(spec_or_mm: Any, entry: str, data: Any, mm_for_sugar: Any = None) -> Any:
         if entry == "spec.gmm":
@@ -525,7 +532,7 @@ def execute(scenario: dict, env: Any, *, prop: str) -> dict:
                 if not ids:
                     continue
                 if fault is None:
-                    data = frame(ids, op["index"], recat=op.get("recat"), keep=sc.get("used_vars") if op.get("only_used_cols") else None)
+                    data = frame(ids, op["index"], recat=op.get("recat"), keep=sc.get("used_vars") if op.get("only_used_cols") else None, iaf=bool(op.get("int_as_float")))
                     with warnings.catch_warnings():
                         warnings.simplefilter("ignore")
                         try:
